@@ -55,6 +55,19 @@ type C13Scenario struct {
 	// refuses (554) after accepting MAIL and RCPT: their call fails, their clean-up stays on
 	// their own connection, nobody else notices.
 	RefuseData []int `json:"refuseData,omitempty"`
+	// Operator > 0: one more goroutine, which after that many scheduling points switches the
+	// Client's debug logging off (a setter that takes the Client's lock for writing, as an
+	// operator or a signal handler would call it while mail is being sent). It changes nothing
+	// observable; the senders must not notice.
+	//
+	// NOT GENERATED. On the unchanged tree this dead-locks: sendSingleMsg holds the Client's
+	// read lock for the whole transaction and takes it again at the end (ResetWithSMTPClient ->
+	// checkConn); a writer that announces itself in between blocks the second RLock for ever
+	// (sync.RWMutex is not reentrant). That is a defect of go-mail, but C13 quantifies over
+	// goroutines calling Send and DialAndSend, none of which takes the write lock, so it is not a
+	// violation of the property and must not raise an alarm. The field is kept so that the
+	// scenario can be replayed by hand (DESIGN.md section 8.4, observations).
+	Operator int `json:"operator,omitempty"`
 	// RefuseEOD lists senders (any, also those on the shared connection) whose message the
 	// server refuses after the content (554 to the end-of-data): their call fails, nothing of
 	// theirs is committed, and the connection stays usable for everybody else.
@@ -122,6 +135,7 @@ func (p *c13) Gen(seed uint64, i int, tier string) (any, bool) {
 		}
 	}
 	sc.Fallback = r.Chance(1, 6)
+	// sc.Operator stays 0 in generated scenarios: see the field's comment
 	if r.Chance(1, 5) {
 		for k := 0; k < 1+r.Intn(2); k++ {
 			sc.RefuseEOD = append(sc.RefuseEOD, r.Intn(sc.N))
@@ -348,6 +362,14 @@ func (p *c13) Exec(t *testing.T, scAny any) Outcome {
 					s.delivered = m.IsDelivered()
 					s.hasErr = m.HasSendError()
 				})
+			}
+			if sc.Operator > 0 {
+				tasks = append(tasks, k.Go("operator", func() {
+					for n := 0; n < sc.Operator; n++ {
+						k.Yield(sim.PtOther)
+					}
+					c.SetDebugLog(false)
+				}))
 			}
 			k.Join(tasks...)
 			if needShared && !k.Aborting() {
